@@ -58,7 +58,7 @@ ASSUMPTIONS = ['Gauss quadrature of the degree chosen per geometry (2 affine map
                '1-D simplex meshes (mesh.simplex with line elements) are not generated: SimplexTopology.boundary asserts "duplicate nodes" for them']
 import os
 # C10_NCASES / C10_BUDGET: development overrides only (planted-break runs on a loaded machine)
-NCASES = {'quick': int(os.environ.get('C10_NCASES', 700)), 'thorough': int(os.environ.get('C10_NCASES', 5000))}
+NCASES = {'quick': int(os.environ.get('C10_NCASES', 600)), 'thorough': int(os.environ.get('C10_NCASES', 5000))}
 MINCASES = {'quick': 300, 'thorough': 2000}   # below this many histories the run is inconclusive (deadline hit on a loaded machine)
 BUDGET_S = {'quick': int(os.environ.get('C10_BUDGET', 100)), 'thorough': int(os.environ.get('C10_BUDGET', 1500))}
 CHUNK = 10
@@ -813,7 +813,22 @@ def known_mechanism(mon, history, step, monitors):
         own, tail = S.transforms.index_with_tail(chain)
         if own in unrefined:
             continue
-        if any(type(t) is transform.ScaledUpdim and isinstance(t.trans2, (transform.SimplexEdge, transform.TensorEdge1, transform.TensorEdge2)) for t in tail):
+        children = None
+        for t in tail:
+            kids = []
+            while type(t) is transform.ScaledUpdim:   # ScaledUpdim(c0, ScaledUpdim(c1, E)): face E of the grandchild c0.c1
+                kids.append(t.trans1)
+                t = t.trans2
+            if kids and isinstance(t, (transform.SimplexEdge, transform.TensorEdge1, transform.TensorEdge2)):
+                children = kids
+        if children is None:
+            continue
+        # the face is lost once H has refined down to (or beyond) the child whose face it is
+        try:
+            lost = len(H.transforms.index_with_tail(tuple(S.transforms[own]) + tuple(children))[1]) == 0
+        except ValueError:
+            lost = True
+        if lost:
             pa += ae[b]
             pz += ze[b]
             pf += fe[b]
